@@ -376,6 +376,7 @@ package reftable
 //@   props C18 C19 C11
 //@   requires wfReader(r) && r.objectIDLen >= 0
 //@   nopanic
+//@   ensures result0 != nil ==> iref(result0.impl) != 0
 //@   modifies buflen, bufdata, lastDelta, lastSought
 
 //@ func (*indexedTableRefIter).nextBlock
@@ -704,13 +705,13 @@ package reftable
 //@   props C03 C19
 //@   requires m != nil
 //@   modifies buflen, bufdata, lastDelta, lastSought, anyof(*tableIter), anyof(*indexedTableRefIter), anyof(*blockIter)
-//@   ensures result1 == nil ==> result0 != nil && istype(result0.impl, *mergedIter) && asptr(result0.impl, *mergedIter).suppressDeletions == m.suppressDeletions && asptr(result0.impl, *mergedIter).typ == 'r' && wfMI(asptr(result0.impl, *mergedIter))
+//@   ensures result1 == nil ==> result0 != nil && iref(result0.impl) != 0 && istype(result0.impl, *mergedIter) && asptr(result0.impl, *mergedIter).suppressDeletions == m.suppressDeletions && asptr(result0.impl, *mergedIter).typ == 'r' && wfMI(asptr(result0.impl, *mergedIter))
 
 //@ func (*Merged).SeekLog
 //@   props C03 C19
 //@   requires m != nil
 //@   modifies buflen, bufdata, lastDelta, lastSought, anyof(*tableIter), anyof(*indexedTableRefIter), anyof(*blockIter)
-//@   ensures result1 == nil ==> result0 != nil && istype(result0.impl, *mergedIter) && asptr(result0.impl, *mergedIter).suppressDeletions == m.suppressDeletions && asptr(result0.impl, *mergedIter).typ == 'g' && wfMI(asptr(result0.impl, *mergedIter))
+//@   ensures result1 == nil ==> result0 != nil && iref(result0.impl) != 0 && istype(result0.impl, *mergedIter) && asptr(result0.impl, *mergedIter).suppressDeletions == m.suppressDeletions && asptr(result0.impl, *mergedIter).typ == 'g' && wfMI(asptr(result0.impl, *mergedIter))
 
 // A table's update-index range and hash id, as functions of the table value (tables are immutable once opened).
 //@ spec tabMin(t Table) uint64
@@ -901,7 +902,7 @@ package reftable
 //@ func (*Stack).reload
 //@   trusted
 //@   requires wfStack(st)
-//@   modifies st.stack, st.merged, listNames, listLen, buflen, bufdata
+//@   modifies st.stack, st.merged, listNames, listLen, buflen, bufdata, lastDelta, lastSought
 //@   ensures wfStack(st) && listStable()
 //@   ensures old(held[listLock()]) ==> namesMatch(st)
 //@   ensures st.merged != nil && len(st.merged.stack) == len(st.stack) && (forall i int :: 0 <= i && i < len(st.stack) ==> st.stack[i].src != nil) && (forall i int :: 0 <= i && i < len(st.merged.stack) ==> st.merged.stack[i] != nil)
@@ -970,7 +971,7 @@ package reftable
 //@ func (*Addition).Add
 //@   props C04 C05 C16 C08
 //@   requires addInv(tr) && tr.lockFileName != ""
-//@   modifies held, ownsTmp, fileOf, listNames, listLen, appends, commits, buflen, bufdata, tr.names, tr.names[:cap(tr.names)], tr.newTables, tr.newTables[:cap(tr.newTables)], tr.nextUpdateIndex, anyof(*Writer), anyof(*blockWriter), anyof(*paddedWriter)
+//@   modifies held, ownsTmp, fileOf, listNames, listLen, appends, commits, buflen, bufdata, lastDelta, lastSought, tr.names, tr.names[:cap(tr.names)], tr.newTables, tr.newTables[:cap(tr.newTables)], tr.nextUpdateIndex, anyof(*Writer), anyof(*blockWriter), anyof(*paddedWriter)
 //@   ensures[inv-a1] tr != nil && tr.stack == old(tr.stack) && tr.lockFileName == old(tr.lockFileName) && tr.lockFile == old(tr.lockFile) && appends == old(appends) && commits == old(commits)
 //@   ensures[inv-a2] heldWf()
 //@   ensures[inv-a3] sizesOKforStack(tr.stack)
@@ -990,7 +991,7 @@ package reftable
 //@ func (*Addition).Commit
 //@   props C04 C05 C08 C16
 //@   requires addInv(tr) && (len(tr.newTables) > 0 ==> tr.lockFileName != "")
-//@   modifies held, ownsTmp, listNames, listLen, wNames, wLen, appends, commits, buflen, bufdata, tr.lockFile, tr.lockFileName, tr.newTables, tr.stack.stack, tr.stack.merged
+//@   modifies held, ownsTmp, listNames, listLen, wNames, wLen, appends, commits, buflen, bufdata, lastDelta, lastSought, tr.lockFile, tr.lockFileName, tr.newTables, tr.stack.stack, tr.stack.merged
 //@   ensures[inv] closeInv(tr)
 //@   ensures[committed-a] old(len(tr.newTables)) > 0 ==> appends == old(appends) + 1
 //@   ensures[committed-b] old(len(tr.newTables)) > 0 ==> tr.lockFileName == ""
@@ -1022,12 +1023,14 @@ package reftable
 //@   requires wfStack(st) && wr != nil && 0 <= first && first <= last && last < len(st.stack)
 //@   modifies buflen, bufdata, lastDelta, lastSought, st.Stats.EntriesWritten, anyof(*Writer), anyof(*blockWriter), anyof(*paddedWriter), anyof(*tableIter), anyof(*indexedTableRefIter), anyof(*blockIter)
 //@   loop 1 invariant first <= i && (subtabs == nil || fresh(subtabs))
+//@   loop 2 invariant it != nil && iref(it.impl) != 0 && wr != nil
+//@   loop 3 invariant it != nil && iref(it.impl) != 0 && wr != nil
 
 // C16: on success the temp file is handed to the caller; on failure nothing temporary is left.
 //@ func (*Stack).compactLocked
 //@   props C16 C05
 //@   requires wfStack(st) && 0 <= first && first <= last && last < len(st.stack)
-//@   modifies held, ownsTmp, fileOf, listNames, listLen, buflen, bufdata, st.Stats.EntriesWritten, anyof(*Writer), anyof(*blockWriter), anyof(*paddedWriter), anyof(*tableIter), anyof(*indexedTableRefIter), anyof(*blockIter)
+//@   modifies held, ownsTmp, fileOf, listNames, listLen, buflen, bufdata, lastDelta, lastSought, st.Stats.EntriesWritten, anyof(*Writer), anyof(*blockWriter), anyof(*paddedWriter), anyof(*tableIter), anyof(*indexedTableRefIter), anyof(*blockIter)
 //@   ensures listStable() && wfStack(st) && heldSame()
 //@   ensures[temp-handed-over] result1 == nil ==> ownsTmp[result0] && !isLock(result0) && result0 != theListFile && (forall p string :: p != result0 ==> (ownsTmp[p] ==> old(ownsTmp[p])))
 //@   ensures[no-temp-on-failure] result1 != nil ==> tmpSubset() && result0 == ""
@@ -1064,7 +1067,7 @@ package reftable
 //@   props C04 C05 C08 C09 C16 C17
 //@   requires wfStack(st) && !held[listLock()]
 //@   requires (first < last || expiration != nil) ==> 0 <= first && first <= last && last < len(st.stack)
-//@   modifies held, ownsTmp, fileOf, listNames, listLen, lockFails, wNames, wLen, appends, commits, buflen, bufdata, st.stack, st.merged, st.Stats.Attempts, st.Stats.EntriesWritten, anyof(*Writer), anyof(*blockWriter), anyof(*paddedWriter), anyof(*tableIter), anyof(*indexedTableRefIter), anyof(*blockIter)
+//@   modifies held, ownsTmp, fileOf, listNames, listLen, lockFails, wNames, wLen, appends, commits, buflen, bufdata, lastDelta, lastSought, st.stack, st.merged, st.Stats.Attempts, st.Stats.EntriesWritten, anyof(*Writer), anyof(*blockWriter), anyof(*paddedWriter), anyof(*tableIter), anyof(*indexedTableRefIter), anyof(*blockIter)
 //@   callsite os.Rename 2 ghost a = first; b = last; k = (emptyTable ? 0 : 1)
 //@   ensures[locks-released] heldSubset()
 //@   ensures[no-temp] tmpSubset()
@@ -1110,7 +1113,7 @@ package reftable
 //@   props C04 C08 C16 C17
 //@   requires wfStack(st) && !held[listLock()]
 //@   requires (first < last || expiration != nil) ==> 0 <= first && first <= last && last < len(st.stack)
-//@   modifies held, ownsTmp, fileOf, listNames, listLen, lockFails, wNames, wLen, appends, commits, buflen, bufdata, st.stack, st.merged, st.Stats.Attempts, st.Stats.Failures, st.Stats.EntriesWritten, anyof(*Writer), anyof(*blockWriter), anyof(*paddedWriter), anyof(*tableIter), anyof(*indexedTableRefIter), anyof(*blockIter)
+//@   modifies held, ownsTmp, fileOf, listNames, listLen, lockFails, wNames, wLen, appends, commits, buflen, bufdata, lastDelta, lastSought, st.stack, st.merged, st.Stats.Attempts, st.Stats.Failures, st.Stats.EntriesWritten, anyof(*Writer), anyof(*blockWriter), anyof(*paddedWriter), anyof(*tableIter), anyof(*indexedTableRefIter), anyof(*blockIter)
 //@   ensures heldSubset() && tmpSubset() && appends == old(appends) && wfStack(st)
 //@   ensures[progress] result0 && (first < last || expiration != nil) ==> commits == old(commits) + 1
 //@   ensures[failure-commits-nothing] !result0 ==> commits == old(commits)
@@ -1128,14 +1131,14 @@ package reftable
 //@ func (*Stack).AutoCompact
 //@   props C04 C08 C16 C17
 //@   requires wfStack(st) && !held[listLock()]
-//@   modifies held, ownsTmp, fileOf, listNames, listLen, lockFails, wNames, wLen, appends, commits, buflen, bufdata, st.stack, st.merged, st.Stats.Attempts, st.Stats.Failures, st.Stats.EntriesWritten, anyof(*Writer), anyof(*blockWriter), anyof(*paddedWriter), anyof(*tableIter), anyof(*indexedTableRefIter), anyof(*blockIter)
+//@   modifies held, ownsTmp, fileOf, listNames, listLen, lockFails, wNames, wLen, appends, commits, buflen, bufdata, lastDelta, lastSought, st.stack, st.merged, st.Stats.Attempts, st.Stats.Failures, st.Stats.EntriesWritten, anyof(*Writer), anyof(*blockWriter), anyof(*paddedWriter), anyof(*tableIter), anyof(*indexedTableRefIter), anyof(*blockIter)
 //@   ensures heldSubset() && tmpSubset() && appends == old(appends) && wfStack(st)
 //@   ensures commits <= old(commits) + 1
 
 //@ func (*Stack).CompactAll
 //@   props C04 C08 C16
 //@   requires wfStack(st) && !held[listLock()] && len(st.stack) > 0
-//@   modifies held, ownsTmp, fileOf, listNames, listLen, lockFails, wNames, wLen, appends, commits, buflen, bufdata, st.stack, st.merged, st.Stats.Attempts, st.Stats.EntriesWritten, anyof(*Writer), anyof(*blockWriter), anyof(*paddedWriter), anyof(*tableIter), anyof(*indexedTableRefIter), anyof(*blockIter)
+//@   modifies held, ownsTmp, fileOf, listNames, listLen, lockFails, wNames, wLen, appends, commits, buflen, bufdata, lastDelta, lastSought, st.stack, st.merged, st.Stats.Attempts, st.Stats.EntriesWritten, anyof(*Writer), anyof(*blockWriter), anyof(*paddedWriter), anyof(*tableIter), anyof(*indexedTableRefIter), anyof(*blockIter)
 //@   ensures heldSubset() && tmpSubset() && appends == old(appends) && wfStack(st)
 
 // Assumption about the caller-supplied transaction function (see (*Addition).Add#write).
@@ -1148,7 +1151,7 @@ package reftable
 //@ func (*Stack).add
 //@   props C04 C08 C09 C16
 //@   requires wfStack(st) && !held[listLock()]
-//@   modifies held, ownsTmp, fileOf, listNames, listLen, lockFails, wNames, wLen, appends, commits, buflen, bufdata, st.stack, st.merged, anyof(*Writer), anyof(*blockWriter), anyof(*paddedWriter), anyof(*Addition)
+//@   modifies held, ownsTmp, fileOf, listNames, listLen, lockFails, wNames, wLen, appends, commits, buflen, bufdata, lastDelta, lastSought, st.stack, st.merged, anyof(*Writer), anyof(*blockWriter), anyof(*paddedWriter), anyof(*Addition)
 //@   ensures[locks-released] heldSubset()
 //@   ensures[no-temp] tmpSubset()
 //@   ensures[at-most-one] appends <= old(appends) + 1 && appends >= old(appends)
@@ -1158,7 +1161,7 @@ package reftable
 //@ func (*Stack).Add
 //@   props C04 C08 C09 C16
 //@   requires wfStack(st) && !held[listLock()]
-//@   modifies held, ownsTmp, fileOf, listNames, listLen, lockFails, wNames, wLen, appends, commits, buflen, bufdata, st.stack, st.merged, st.Stats.Attempts, st.Stats.Failures, st.Stats.EntriesWritten, anyof(*Writer), anyof(*blockWriter), anyof(*paddedWriter), anyof(*tableIter), anyof(*indexedTableRefIter), anyof(*blockIter), anyof(*Addition)
+//@   modifies held, ownsTmp, fileOf, listNames, listLen, lockFails, wNames, wLen, appends, commits, buflen, bufdata, lastDelta, lastSought, st.stack, st.merged, st.Stats.Attempts, st.Stats.Failures, st.Stats.EntriesWritten, anyof(*Writer), anyof(*blockWriter), anyof(*paddedWriter), anyof(*tableIter), anyof(*indexedTableRefIter), anyof(*blockIter), anyof(*Addition)
 //@   ensures[locks-released] heldSubset()
 //@   ensures[no-temp] tmpSubset()
 //@   ensures[at-most-one] appends <= old(appends) + 1 && appends >= old(appends)
@@ -1211,7 +1214,7 @@ package reftable
 //@   props C16 C08
 //@   requires wfStack(st) && !held[listLock()] && (forall i int :: 0 <= i && i < len(st.stack) ==> st.stack[i].src != nil)
 //@   nopanic
-//@   modifies held, ownsTmp, fileOf, listNames, listLen, lockFails, buflen, bufdata, st.stack, st.merged, anyof(*Addition)
+//@   modifies held, ownsTmp, fileOf, listNames, listLen, lockFails, buflen, bufdata, lastDelta, lastSought, st.stack, st.merged, anyof(*Addition)
 //@   ensures[locks-released] heldSubset()
 //@   ensures[no-temp] tmpSubset()
 //@   loop 1 invariant -1 <= rangeindex && rangeindex < len(st.stack)
